@@ -142,6 +142,34 @@ theorem c07_pipe_own_scope {σ : Type} [ScopeAlg σ] [LawfulScope σ] (p : Prims
     · rw [LawfulScope.lookup_setArgMode, LawfulScope.lookup_child]
     · rw [LawfulScope.lookupRef_setArgMode, LawfulScope.lookupRef_child]
 
+/-- … so does `Inspect(s)` (like `Spec(s)`): what the wrapped spec binds ends with it. -/
+theorem c07_inspect_own_scope {σ : Type} [ScopeAlg σ] [LawfulScope σ] (p : Prims) (fuel : Nat) (s : Spec)
+    (bp pm : Option (String × String)) (t : V) (c : σ) (st st' : St) (v : V) (c' : σ)
+    (h : interp p (fuel + 1) (.inspect s bp pm) t c st = (st', .ok (v, c'))) (k : String) :
+    lookup c' k = lookup c k ∧ lookupRef c' k = lookupRef c k := by
+  simp only [interp, Spec.isSpecLike, if_true, glomit, M.bind_apply] at h
+  rcases hcb : callOpt p bp st with ⟨st0, r0⟩
+  rw [hcb] at h
+  cases r0 with
+  | error e => simp at h
+  | ok u =>
+    simp only [M.attempt] at h
+    rcases hr : interp p fuel s t (setArgMode (child c) false) st0 with ⟨st1, r1⟩
+    rw [hr] at h
+    cases r1 with
+    | error e =>
+      simp only [M.bind_apply] at h
+      rcases hpm : callOpt p pm st1 with ⟨st2, r2⟩
+      rw [hpm] at h
+      cases r2 <;> simp [M.throw] at h
+    | ok w =>
+      simp only [M.pure_apply, Prod.mk.injEq, Except.ok.injEq] at h
+      obtain ⟨_, _, hc⟩ := h
+      subst hc
+      constructor
+      · rw [LawfulScope.lookup_setArgMode, LawfulScope.lookup_child]
+      · rw [LawfulScope.lookupRef_setArgMode, LawfulScope.lookupRef_child]
+
 /-- … and so does every plain object (a tuple — the other spelling of a chain —, a dict, a list, a
     path string, a callable), in every mode: it finishes in the child frame `_glom` made for it. -/
 theorem c07_plain_own_scope {σ : Type} [ScopeAlg σ] [LawfulScope σ] (p : Prims) (fuel : Nat) (s : Spec)
